@@ -753,8 +753,11 @@ func (g *gen) rollout(i int, seed uint64, fair bool) *scenario {
 		k2.Method = plainMethods[r.Intn(len(plainMethods))]
 		ctl.Kids = append(ctl.Kids, k2)
 	}
-	if r.Chance(1, 3) {
+	switch r.Intn(4) {
+	case 0:
 		ctl.FieldPaths = []string{"spec.image", "spec.replicas"}
+	case 1:
+		ctl.FieldPaths = []string{"spec.image"} // scaling is not part of the revision history
 	}
 	sc.Ctl = ctl
 	app := "roll"
@@ -780,6 +783,10 @@ func (g *gen) rollout(i int, seed uint64, fair bool) *scenario {
 		sc.Hook.OmitStatus = true
 	case 1:
 		sc.Hook.Status = J{"conditions": A{J{"type": "Updated", "status": "Unknown"}, J{"type": "Ready", "status": "True"}}}
+	}
+	if r.Chance(1, 3) {
+		sc.Hook.Reverse = true
+		sc.Features = append(sc.Features, "reverse-order")
 	}
 	sc.Warmup = true
 	// after the warm-up: everything healthy, then the spec changes
@@ -839,12 +846,35 @@ func (g *gen) rollout(i int, seed uint64, fair bool) *scenario {
 		}
 		sc.Rounds = append(sc.Rounds, rs)
 	}
+	if fair && r.Chance(1, 3) && len(sc.Rounds) > 3 {
+		// a second spec change arrives while the first rollout is under way (the environment stays fair)
+		at := 1 + r.Intn(2)
+		switch r.Intn(3) {
+		case 0:
+			if nrep > 1 {
+				sc.Rounds[at].PreOps = append(sc.Rounds[at].PreOps, edit("v2", nrep-1, ""))
+				sc.Features = append(sc.Features, "scale-down-mid-rollout")
+			}
+		case 1:
+			sc.Rounds[at].PreOps = append(sc.Rounds[at].PreOps, edit("v2", nrep+1, ""))
+			sc.Features = append(sc.Features, "scale-up-mid-rollout")
+		default:
+			sc.Rounds[at].PreOps = append(sc.Rounds[at].PreOps, edit("v3", nrep, ""))
+			sc.Features = append(sc.Features, "second-spec-change")
+		}
+		for x := 0; x < int(2*nrep)+4; x++ {
+			sc.Rounds = append(sc.Rounds, roundSpec{PreOps: []extOp{healthy}})
+		}
+	}
 	if fair {
 		sc.Features = append(sc.Features, "fair")
 	}
 	sc.Features = append(sc.Features, "method-"+kid.Method)
 	if ctl.GenSelector {
 		sc.Features = append(sc.Features, "generate-selector")
+	}
+	if len(ctl.FieldPaths) == 1 {
+		sc.Features = append(sc.Features, "replicas-not-revisioned")
 	}
 	if !namespaced {
 		sc.Features = append(sc.Features, "cluster-scoped-parent")
